@@ -187,7 +187,55 @@ func nodeAtTextPath(v val.V, p []string) val.V {
 
 var badIndices = []string{"-1", "-2", "-7", "1.5", "0.5", "-0.5", "1e30", "-1e30", "9223372036854775807", "-9223372036854775808", "4294967296", "1e3", "99"}
 
+// keyedCopiesCase: a keyed hunk on a target whose array holds several members
+// with the addressed key value (copies or look-alikes), where the rest of the
+// hunk fits some of them, all of them or none; then a second hunk on the
+// same array.
+func keyedCopiesCase(t *rapid.T) StructCase {
+	member := func() val.V {
+		m := map[string]val.V{"id": 1.0, "v": gen.Pick(t, "memberV", []val.V{1.0, 2.0, "x", []val.V{1.0}, map[string]val.V{"w": 1.0}})}
+		if gen.Chance(t, "memberExtra", 30) {
+			m["l"] = []val.V{1.0, 2.0}
+		}
+		return m
+	}
+	var arr []val.V
+	for i := gen.Int(t, "nMembers", 2, 3); i > 0; i-- {
+		arr = append(arr, member())
+	}
+	if gen.Chance(t, "otherMember", 50) {
+		arr = append(arr, map[string]val.V{"id": 2.0, "v": 1.0})
+	}
+	var target val.V = arr
+	prefix := ""
+	if gen.Chance(t, "underKey", 50) {
+		target, prefix = map[string]val.V{"s": arr}, `"s",`
+	}
+	rest := gen.Pick(t, "keyedRest", []string{`"v"`, `"v"`, `"l",0`, `"l",5`, `"v","w"`, `"v",0`, `"zz"`, `"l",{}`})
+	h1 := HunkSpec{Path: "[" + prefix + `{"id":1},` + rest + "]"}
+	if gen.Chance(t, "withRemove", 70) {
+		h1.Remove = []string{val.JSON(gen.Pick(t, "oldV", []val.V{1.0, 2.0, "x", []val.V{1.0}, map[string]val.V{"w": 1.0}}))}
+	}
+	if gen.Chance(t, "withAdd", 70) || len(h1.Remove) == 0 {
+		h1.Add = []string{val.JSON(freshScalar(t))}
+	}
+	c := StructCase{Target: val.JSON(target), Via: gen.Pick(t, "via", []string{"text", "elements"}), Damage: "keyed-copies"}
+	c.Hunks = append(c.Hunks, h1)
+	if gen.Chance(t, "secondHunk", 60) {
+		h2 := HunkSpec{Path: "[" + prefix + gen.Pick(t, "secondPath", []string{`{}`, `1,"v"`, `{"id":1},"v"`, `0`}) + "]"}
+		h2.Add = []string{val.JSON(freshScalar(t))}
+		if gen.Chance(t, "secondRemove", 40) {
+			h2.Remove = []string{val.JSON(member())}
+		}
+		c.Hunks = append(c.Hunks, h2)
+	}
+	return c
+}
+
 func genC13Struct(t *rapid.T) StructCase {
+	if gen.Chance(t, "keyedCopies", 6) {
+		return keyedCopiesCase(t)
+	}
 	target := gen.Doc(t, gen.Profile{ArrayBias: 55, MaxArr: 5})
 	c := StructCase{Target: val.JSON(target)}
 	c.Via = gen.Pick(t, "via", []string{"text", "text", "elements"})
